@@ -225,12 +225,29 @@ def check_C18(tier, t0):
 # ---------------------------------------------------------------------------------------------
 
 
-def _c19_batch(tier, seed, n, bud):
+def _c19_batch(tier, seed, n, bud, sweeps=False):
     from . import engine_state as es
 
     agg, info = core.run_batch(es.make_engine, {"seed": seed}, n, 40 if tier == "quick" else 400, bud)
     engine = es.make_engine(seed)
     agg.add(-1, engine.import_run())  # import-time effects on process-global state
+    if sweeps:
+        # single-pre-emption sweep: for 8 sibling pairs in both orders, op A is interrupted once, at its
+        # k-th pre-emption point, by a complete op B -- every k (thorough) or every stride-th k (quick)
+        info["sweeps"] = {}
+        for gran, stride in (("line", 1 if tier == "thorough" else 4), ("instruction", 1 if tier == "thorough" else 24)):
+            params = {"seed": seed, "mode": "sweep", "granularity": gran, "stride": stride, "offset": seed % stride}
+            eng = es.make_engine(**params)
+            size = eng.sweep_size()
+            total_points = eng.sweep_size(stride=1, offset=0)
+            if eng.room is not None:
+                eng.room.close()
+            sw, _ = core.run_batch(es.make_engine, params, size, 200, bud)
+            for v in sw.violations.values():
+                v["index"] += n
+            info["sweeps"][gran] = {"pre_emption_points_total": total_points, "stride": stride, "cases": size,
+                                    "executed": sw.evaluations, "exhaustive": stride == 1 and sw.evaluations == size}
+            agg.merge(sw)
     rep = core.report("C19", engine, agg, shrink_budget=40.0, max_shrunk=5)
     if engine.room is not None:
         engine.room.close()
@@ -242,7 +259,7 @@ def check_C19(tier, t0):
     import subprocess
 
     seed = core.verif_seed()
-    n = scale(3000 if tier == "quick" else 30000)  # per hash seed
+    n = scale(2500 if tier == "quick" else 30000)  # per hash seed
     bud = budget(200 if tier == "quick" else 2400)
     partial = os.environ.get("CVSSSIM_C19_PARTIAL")
     if partial:
@@ -266,7 +283,7 @@ def check_C19(tier, t0):
     for hs in hashseeds:
         if hs == 0:
             os.environ["VERIF_BUDGET_S"] = str(per_seed_budget)
-            agg, inf, rep = _c19_batch(tier, seed, n, per_seed_budget)
+            agg, inf, rep = _c19_batch(tier, seed, n, per_seed_budget, sweeps=True)
         else:
             path = os.path.join(core.tmp_dir(), "c19-hs%d.pickle" % hs)
             env = dict(os.environ)
@@ -293,6 +310,8 @@ def check_C19(tier, t0):
     c = total.counters
     extra = {
         "hash_seeds": per_seed,
+        "single_preemption_sweep": dict(info.get("sweeps", {}), what="8 sibling op pairs x both orders: the first op is interrupted once, at its "
+                                        "k-th pre-emption point, by the complete second op, then resumes (run under PYTHONHASHSEED=0, default context)"),
         "faults_fired": dict((k, v) for k, v in c.items() if k.startswith("fault.")),
         "probes": dict((k, v) for k, v in c.items() if k.startswith("probe.")),
         "context_switches": c.get("context_switches", 0),
